@@ -26,6 +26,29 @@ SIZES_Q = [(1, 1), (2, 1), (1, 2), (3, 2), (7, 2088), (2088, 7), (4096, 1), (1, 
 SIZES_T = SIZES_Q + [(w, h) for w in (1, 2, 3, 5, 17, 64, 255, 256, 257, 1023, 1024, 2047, 4095) for h in (1, 2, 3, 7, 100, 719, 720, 1081, 4096)]
 
 
+def confirm_concretely(e, scenario, kind, ivars, tries=300):
+    """Refinement step for a counterexample of a direct obligation.  The rounding envelopes over-approximate IEEE arithmetic, so a model of the negated
+    obligation may be one that no real rounding produces.  The solver enumerates models of the counterexample region (blocking clause per tried (W, H)); each is
+    run on the real code with exact floats; the first that reproduces is pinned (W == W0, H == H0 added to the path) so that the reported model is a real one.
+    Returns False only if the region was exhausted with every point refuted concretely (then nothing is reported: each point was checked on the real code)."""
+    import z3
+    from symex.engine import ConcreteEngine, set_current, HarnessError
+    if not e.symbolic: return True
+    for _ in range(tries):
+        try: md = e.model_dict()
+        except HarnessError: return False
+        ce = ConcreteEngine(md)
+        try: k, rp = ce.run(scenario)
+        except BaseException: k, rp = 'error', None
+        finally: set_current(e)
+        vals = [md[str(v.z)] for v in ivars]
+        if k == 'violation' and rp['signature'].get('kind') == kind:
+            for v, x in zip(ivars, vals): e._add(v.z == x)
+            return True
+        e._add(z3.Or(*[v.z != x for v, x in zip(ivars, vals)]))
+    return True      # not settled inside the budget: report the envelope counterexample (the runner replays it and says inconclusive if it does not reproduce)
+
+
 def parse_xform(text):
     """the real normalize_config turns the user's text into the XForm record"""
     return Util.normalize_config({'id': 'u', 'xforms': [text]}).xforms[0]
@@ -56,7 +79,7 @@ def size_scenario(actions=('maxsize', 'minsize', 'resize'), planted=None, exact=
         w2, h2 = out.width, out.height
         def must(cond, kind, what):
             ok, m = e.valid(cond) if e.symbolic else (bool(cond), None)
-            if not ok: e.fail(kind, f'{action} {W}{sep}{H} on {w}x{h} -> {w2}x{h2}: {what}', {'kind': kind, 'action': action, 'aspect': sep})
+            if not ok and confirm_concretely(e, scenario, kind, [W, H]): e.fail(kind, f'{action} {W}{sep}{H} on {w}x{h} -> {w2}x{h2}: {what}', {'kind': kind, 'action': action, 'aspect': sep})
         if action == 'resize':
             must((w2 == W) & (h2 == H), 'resize-not-exact', 'resize must return exactly the requested size')
         elif action == 'maxsize':
@@ -104,7 +127,7 @@ def reader_scenario(planted=None, exact=False, maxside=MAXSIDE, sizes=SIZES_Q):
         h2, w2 = out.shape[0], out.shape[1]
         def must(cond, kind, what):
             ok, m = e.valid(cond) if e.symbolic else (bool(cond), None)
-            if not ok: e.fail(kind, f'reader {mode} {W}{sep}{H} on {w}x{h} -> {w2}x{h2}: {what}', {'kind': kind, 'action': 'reader-' + mode, 'aspect': sep})
+            if not ok and confirm_concretely(e, scenario, kind, [W, H]): e.fail(kind, f'reader {mode} {W}{sep}{H} on {w}x{h} -> {w2}x{h2}: {what}', {'kind': kind, 'action': 'reader-' + mode, 'aspect': sep})
         must((w2 >= 1) & (h2 >= 1), 'empty', 'empty result')
         if mode == 'maxsize':
             must((w2 <= W) & (h2 <= H), 'maxsize-over-bound', 'result larger than the bound')
